@@ -313,7 +313,7 @@ func genCase(t *rapid.T) Case {
 	ne := rapid.IntRange(0, 3).Draw(t, "ne")
 	for i := 0; i < ne; i++ {
 		e := Entry{Scheme: rapid.SampledFrom([]string{"http", "https"}).Draw(t, "s"), Host: rapid.SampledFrom(domains).Draw(t, "h"),
-			Port: rapid.SampledFrom([]string{"", "", "8080"}).Draw(t, "p"), Wild: rapid.Bool().Draw(t, "w"),
+			Port: rapid.SampledFrom([]string{"", "", "", "8080", "443", "80"}).Draw(t, "p"), Wild: rapid.Bool().Draw(t, "w"),
 			Pad: rapid.SampledFrom([]string{"", "", "", "sp", "slash"}).Draw(t, "pad")}
 		if rapid.IntRange(0, 11).Draw(t, "star") == 0 {
 			e = Entry{Star: true}
@@ -369,7 +369,7 @@ func genRequest(t *rapid.T, c *Case) {
 		base = Entry{Scheme: "https", Host: "example.com"}
 	}
 	scheme := rapid.SampledFrom([]string{base.Scheme, base.Scheme, "http", "https"}).Draw(t, "os")
-	port := rapid.SampledFrom([]string{base.Port, base.Port, "", "8080", "81"}).Draw(t, "op")
+	port := rapid.SampledFrom([]string{base.Port, base.Port, "", "", "8080", "81", "443", "80"}).Draw(t, "op") // (a port is part of the origin, whatever its number)
 	bh := base.Host
 	same := []byte(bh) // a look-alike of the same length: another first letter
 	if same[0] == 'e' {
